@@ -117,5 +117,6 @@ void stage_shrt2d ();         // c12_shrt2d.cpp
 void stage_svd ();            // c12_svd.cpp
 void stage_eigen ();          // c12_eigen.cpp
 void stage_procrustes ();     // c12_procrustes.cpp
+void stage_dirty ();          // c12_dirty.cpp
 
 } // namespace c12
